@@ -808,6 +808,34 @@ func Dev(args []string) {
 		}
 	case "bases":
 		devBases(args[1:])
+	case "inbox":
+		setGlobals()
+		ri := 0
+		fmt.Sscan(args[1], &ri)
+		dir, _ := os.MkdirTemp("/dev/shm", "c09dev")
+		defer os.RemoveAll(dir)
+		c := &xs.Ctx{ID: "C09", Tier: "thorough", Scratch: dir, Deadline: time.Now().Add(time.Hour)}
+		w := &worker{c: c, r: xs.NewResult(), b: boundsFor("thorough"), ri: ri, nsub: 1}
+		w.buildBases(map[string]bool{"entries": true, "matured": true})
+		for _, bn := range []string{"genesis", "entries", "matured"} {
+			s := w.snaps[bn]
+			p := s.open(c.TempDir(), c.TempDir())
+			fmt.Println(bn, "height", p.P.Height(), "uncommitted", len(p.P.Chain.GetAllUncommittedAccountBlocks()))
+			for _, cd := range contracts {
+				if h := inboxHead(p.P, cd.Addr); h != nil {
+					fmt.Printf("  %s inbox head: from %v amount %v %v data %x\n", cd.Name, h.Address, h.Amount, h.TokenStandard, h.Data)
+				}
+			}
+			for h := uint64(1); h <= p.P.Height(); h++ {
+				d := p.P.Detailed(h)
+				for _, b := range d.AccountBlocks {
+					if bn == "matured" && h > w.snaps["entries"].Height {
+						fmt.Printf("   m%d %v h%d type%d -> %v amount %v from %v data %x nd=%d\n", h, contractNameOf(b.Address), b.Height, b.BlockType, contractNameOf(b.ToAddress), b.Amount, b.FromBlockHash, b.Data, len(b.DescendantBlocks))
+					}
+				}
+			}
+			p.destroy()
+		}
 	}
 }
 
